@@ -76,7 +76,7 @@ func (p *ProjectionPlan) processProjectionBatch(chunk []KVPair, ctx *ExecuteCtx)
 	)
 	for i := 0; i < nFields; i++ {
 		have = false
-		if ctx != nil {
+		if ctx != nil && p.isFirstFieldOfName(i) {
 			fname := p.FieldNames[i]
 			cols[i], have = ctx.GetChunkFieldFinalResult(fname)
 		}
@@ -99,6 +99,18 @@ func (p *ProjectionPlan) processProjectionBatch(chunk []KVPair, ctx *ExecuteCtx)
 	return ret, nil
 }
 
+// isFirstFieldOfName reports the field is the first one with its name. A
+// name used in expressions means the first field with that name, so the
+// result cached by name is the result of that field only.
+func (p *ProjectionPlan) isFirstFieldOfName(idx int) bool {
+	for i := 0; i < idx; i++ {
+		if p.FieldNames[i] == p.FieldNames[idx] {
+			return false
+		}
+	}
+	return true
+}
+
 func (p *ProjectionPlan) processProjection(kvp KVPair, ctx *ExecuteCtx) ([]Column, error) {
 	nFields := len(p.Fields)
 	ret := make([]Column, nFields)
@@ -108,7 +120,7 @@ func (p *ProjectionPlan) processProjection(kvp KVPair, ctx *ExecuteCtx) ([]Colum
 	)
 	for i := 0; i < nFields; i++ {
 		have := false
-		if ctx != nil {
+		if ctx != nil && p.isFirstFieldOfName(i) {
 			fname := p.FieldNames[i]
 			result, have = ctx.GetFieldResult(fname)
 		}
